@@ -233,7 +233,7 @@ impl<'u, 'de> serde::Deserializer<'de> for &'u mut CookieDeserializer<'de> {
     #[inline]
     fn deserialize_option<V>(self, visitor: V) -> Result<V::Value, Self::Error>
     where V: serde::de::Visitor<'de> {
-        if self.input.iter().position(|b| b==&b'&').unwrap_or(self.input.len()) == 0 {
+        if self.input.iter().position(|b| b==&b';').unwrap_or(self.input.len()) == 0 {
             visitor.visit_none()
         } else {
             visitor.visit_some(self)
@@ -242,7 +242,7 @@ impl<'u, 'de> serde::Deserializer<'de> for &'u mut CookieDeserializer<'de> {
 
     fn deserialize_unit<V>(self, visitor: V) -> Result<V::Value, Self::Error>
     where V: serde::de::Visitor<'de> {
-        if self.input.iter().position(|b| b==&b'&').unwrap_or(self.input.len()) == 0 {
+        if self.input.iter().position(|b| b==&b';').unwrap_or(self.input.len()) == 0 {
             visitor.visit_unit()
         } else {
             Err((|| serde::de::Error::custom(format!(
